@@ -39,8 +39,8 @@ TRUSTED = [
     "Lean 4.33 kernel; Mathlib v4.33 as compiled on this image",
     "axioms: subset of {propext, Classical.choice, Quot.sound} (audited per theorem on every run)",
     "hand-written model LW.Model.Tomo tied to the code by this correspondence check",
-    "scipy.linalg.sqrtm inside state_fidelity (contract: principal square root; the square root of a "
-    "rank-one projector is computed to ~1e-8 only, so fidelity is compared with tolerance 1e-6)",
+    "numpy.linalg.eigh inside state_fidelity (contract: eigendecomposition of a Hermitian matrix; "
+    "fidelity is compared with tolerance 1e-6)",
     "float evaluation of 1/2**0.5, complex arithmetic, np.kron (1e-9 tolerance)",
     "the implementation's Simulator / Sampler as the source of noiseless outcome frequencies "
     "(amplitude semantics are the subject of C03/C04)",
@@ -384,23 +384,16 @@ def run_state(ctx: Ctx, case: dict, want_detail: bool = False):
                      f"(max {np.abs(rho - ref).max():.2e})")
     if not np.array_equal(np.array(tomo.rho), rho):
         probs.append("oracle: .rho differs from the matrix process() returned")
-    fid_err = None
-    for attempt in range(3):
-        # scipy.linalg.sqrtm of a (numerically singular) projector occasionally raises LinAlgError
-        # non-deterministically under machine load; the property is deterministic, so only an error
-        # that repeats on identical input is reported
-        try:
-            fid = tomo.fidelity(density_from_state(psi / np.sqrt(norm)))
-            fid_err = None
-            if attempt:
-                ctx.count("sqrtm_transient_error_retried")
-            if abs(fid - 1) > FID_TOL:
-                probs.append(f"oracle: fidelity against the prepared state is {fid}")
-            break
-        except Exception as e:  # noqa: BLE001
-            fid_err = exc_class(e)
-    if fid_err is not None:
-        probs.append(f"oracle: fidelity() raised {fid_err}")
+    # fidelity() of the (rank one, hence singular) reconstructed matrix.  Until the repair F28 the code
+    # took scipy.linalg.sqrtm of it, which returns nan when rounding leaves entries of order 1e-35 in
+    # the zero block (which entries appear depends on summation order, i.e. on the per-process
+    # string hash seed: the failure was reproducible per process, not per run).
+    try:
+        fid = tomo.fidelity(density_from_state(psi / np.sqrt(norm)))
+        if abs(fid - 1) > FID_TOL:
+            probs.append(f"oracle: fidelity against the prepared state is {fid}")
+    except Exception as e:  # noqa: BLE001
+        probs.append(f"oracle: fidelity() raised {exc_class(e)}")
     detail = {"order": order, "norm": norm}
     if None in order or len(order) != 3**n or sorted(order) != sorted(tm.all_settings(n)):
         return (probs, detail) if want_detail else probs
@@ -524,8 +517,7 @@ def shrink_state(ctx: Ctx, case: dict) -> dict:
 
 
 def report(ctx: Ctx, case: dict, probs: list[str]) -> None:
-    # a problem must reproduce on identical input (the property is deterministic; scipy's sqrtm /
-    # eig occasionally fail transiently under machine load)
+    # a problem must reproduce on identical input in this process (the property is deterministic)
     again = run_case(ctx, case)
     if not again:
         ctx.count("transient_problem_not_reproduced")
